@@ -43,7 +43,7 @@ theorem InvD.pres_d3 {cfg : Cfg} {s s' : State} {l : Label} (hB : InvB s) (hC : 
     kind_startupCleanup_iff, kind_coreWatch_iff] at *)
   all_goals (try subst_vars)
   all_goals (try dsimp only)
-  all_goals (grind [upd, Root.kind, TS.active, TS.live, TS.ended, TS.isStopping, failTS, cancelSubs,
+  all_goals (grind (instances := 4000) [upd, Root.kind, TS.active, TS.live, TS.ended, TS.isStopping, failTS, cancelSubs,
     cancelRoots, cancelRootsV, Pend.ts, scBeforeCleanup, scLate, scEarly, stoppingPhase, G, grace])
 
 end Kopf.C20
